@@ -1013,23 +1013,18 @@ impl Translator {
                 //     .enumerate()
                 //     .map(|(i, _)| make_label(&format!("arm{i}")))
                 //     .collect::<Vec<_>>();
+                // every arm is tried once per combination of its or-pattern alternatives; a
+                // combination is the set of or-patterns that take their right-hand side
                 let mut arm_labels = vec![];
-                let mut or_pat_decisions = HashSet::default();
                 for (i, arm) in arms.iter().enumerate() {
-                    loop {
-                        let mut went_left = false;
-                        self.traverse_arm_pat(
-                            &arm.pat,
-                            mono,
-                            &mut or_pat_decisions,
-                            &mut went_left,
-                        );
-
+                    for mut or_pat_decisions in self.or_pat_combinations(&arm.pat, mono) {
                         let arm_label = make_label(&format!("arm{i}"));
-                        arm_labels.push((arm_label.clone(), arm.clone()));
 
                         // duplicate the scrutinee before doing a comparison
-                        self.emit(st, Instr::Duplicate);
+                        // (a void scrutinee occupies no stack slot)
+                        if ty != SolvedType::Void {
+                            self.emit(st, Instr::Duplicate);
+                        }
                         self.translate_pat_comparison(
                             &ty,
                             &arm.pat,
@@ -1037,18 +1032,11 @@ impl Translator {
                             mono,
                             &mut or_pat_decisions,
                         );
-                        self.emit(st, Instr::JumpIf(arm_label));
-
-                        if !went_left {
-                            break;
-                        }
+                        self.emit(st, Instr::JumpIf(arm_label.clone()));
+                        arm_labels.push((arm_label, arm.clone(), or_pat_decisions));
                     }
                 }
-                let mut or_pat_decisions = HashSet::default();
-                // let mut label_index = 0;
-                for (i, (arm_label, arm)) in arm_labels.iter().enumerate() {
-                    // let arm_label = &arm_labels[label_index];
-                    // label_index += 1;
+                for (i, (arm_label, arm, or_pat_decisions)) in arm_labels.iter().enumerate() {
                     self.emit(st, arm_label.clone());
 
                     self.handle_pat_binding(
@@ -1056,7 +1044,7 @@ impl Translator {
                         offset_table,
                         st,
                         mono,
-                        &mut or_pat_decisions,
+                        &mut or_pat_decisions.clone(),
                     );
 
                     self.translate_stmt(&arm.stmt, true, offset_table, mono, st);
@@ -1920,7 +1908,6 @@ impl Translator {
                 if !or_pat_decisions.contains(&pat.id) {
                     let left_ty = self.get_ty(mono, left.node()).unwrap();
                     self.translate_pat_comparison(&left_ty, left, st, mono, or_pat_decisions);
-                    or_pat_decisions.insert(pat.id);
                 } else {
                     let right_ty = self.get_ty(mono, right.node()).unwrap();
                     self.translate_pat_comparison(&right_ty, right, st, mono, or_pat_decisions);
@@ -2641,45 +2628,51 @@ impl Translator {
         }
     }
 
-    fn traverse_arm_pat(
-        &self,
-        pat: &Rc<Pat>,
-        mono: &MonomorphEnv,
-        or_pat_decisions: &mut HashSet<NodeId>,
-        went_left: &mut bool,
-    ) {
-        match &*pat.kind {
-            PatKind::Tuple(pats) => {
-                for pat in pats.iter() {
-                    self.traverse_arm_pat(pat, mono, or_pat_decisions, went_left);
+    // all combinations of or-pattern choices inside `pat`: each combination is the set of
+    // or-patterns (on the chosen path) that take their right-hand alternative
+    fn or_pat_combinations(&self, pat: &Rc<Pat>, mono: &MonomorphEnv) -> Vec<HashSet<NodeId>> {
+        let product = |this: &Self, pats: &[Rc<Pat>]| {
+            let mut acc: Vec<HashSet<NodeId>> = vec![HashSet::default()];
+            for pat in pats {
+                let choices = this.or_pat_combinations(pat, mono);
+                let mut next = Vec::with_capacity(acc.len() * choices.len());
+                for a in &acc {
+                    for c in &choices {
+                        let mut merged = a.clone();
+                        merged.extend(c.iter().cloned());
+                        next.push(merged);
+                    }
                 }
+                acc = next;
             }
+            acc
+        };
+        match &*pat.kind {
+            PatKind::Tuple(pats) => product(self, pats),
             PatKind::Struct(name, field_pats) => {
-                for pat in self.struct_pat_fields_in_order(name, field_pats) {
-                    self.traverse_arm_pat(&pat, mono, or_pat_decisions, went_left);
-                }
+                product(self, &self.struct_pat_fields_in_order(name, field_pats))
             }
             PatKind::Variant(_prefixes, tag, inner) => match inner {
                 Some(PatVariantData::Positional(inner)) => {
                     let pat_ty = self.get_ty(mono, pat.node()).unwrap();
                     if pat_ty != SolvedType::Void {
-                        self.traverse_arm_pat(inner, mono, or_pat_decisions, went_left);
+                        self.or_pat_combinations(inner, mono)
+                    } else {
+                        vec![HashSet::default()]
                     }
                 }
                 Some(PatVariantData::Named(named)) => {
-                    for pat in self.variant_named_pats_in_order(tag, named) {
-                        self.traverse_arm_pat(&pat, mono, or_pat_decisions, went_left);
-                    }
+                    product(self, &self.variant_named_pats_in_order(tag, named))
                 }
-                None => {}
+                None => vec![HashSet::default()],
             },
             PatKind::Or(left, right) => {
-                if !or_pat_decisions.contains(&pat.id) {
-                    self.traverse_arm_pat(left, mono, or_pat_decisions, went_left);
-                    *went_left = true;
-                } else {
-                    self.traverse_arm_pat(right, mono, or_pat_decisions, went_left);
+                let mut combos = self.or_pat_combinations(left, mono);
+                for mut c in self.or_pat_combinations(right, mono) {
+                    c.insert(pat.id);
+                    combos.push(c);
                 }
+                combos
             }
             PatKind::Binding(_)
             | PatKind::Void
@@ -2687,7 +2680,7 @@ impl Translator {
             | PatKind::Int(..)
             | PatKind::Float(..)
             | PatKind::Str(..)
-            | PatKind::Wildcard => {}
+            | PatKind::Wildcard => vec![HashSet::default()],
         }
     }
 
@@ -2780,7 +2773,6 @@ impl Translator {
             PatKind::Or(left, right) => {
                 if !or_pat_decisions.contains(&pat.id) {
                     self.handle_pat_binding(left, locals, st, mono, or_pat_decisions);
-                    or_pat_decisions.insert(pat.id);
                 } else {
                     self.handle_pat_binding(right, locals, st, mono, or_pat_decisions);
                 }
